@@ -165,8 +165,5 @@ def diff(ref, got, classes=FACT_CLASSES, scopes=None):
                     out.append((cls, key, 'spurious', item, ln))
             for ms in mk.values():
                 for m in ms:
-                    if cls == 'calls' and any(o[0] == 'calls' and o[1] == key and o[2] == 'spurious' for o in out) \
-                            and False:
-                        continue
                     out.append((cls, key, 'missing', m[0], None))
     return out
